@@ -10,7 +10,7 @@ TB=/root/.rustup/toolchains/1.97-x86_64-unknown-linux-gnu/lib/rustlib/x86_64-unk
 mkdir -p $W/prof; rm -f $W/prof/*.profraw
 cd /verif/harness
 export CARGO_NET_OFFLINE=true CARGO_TARGET_DIR=$W/target RUSTFLAGS="-Cinstrument-coverage"
-cargo build --profile verif --workspace 2>&1 | tail -1
+LLVM_PROFILE_FILE=$W/prof-build/%p-%m.profraw cargo build --profile verif --workspace 2>&1 | tail -1
 crate_of() { case $1 in C01|C02|C03|C19) echo lrv-codec;; C13) echo lrv-phyref;; C14|C18) echo lrv-chip;; C15|C16|C17) echo lrv-phy;; *) echo lrv-mac;; esac; }
 for p in $props; do
   LLVM_PROFILE_FILE=$W/prof/$p-%p.profraw timeout 1500 $W/target/verif/$(crate_of $p) $p --tier $tier --seed ${VERIF_SEED:-1} --threads ${COV_THREADS:-2} --scale ${COV_SCALE:-0.25} --stall 100000 >/dev/null 2>&1
